@@ -27,6 +27,19 @@ CLAIMED = {
              "written from the manual against the implementation.",
         technique="Lean 4 theorems over ported modifier model + exhaustive line-protocol correspondence + reference-model search",
         design="§4 C04"),
+    "C05": dict(
+        text="Theorems about the Lean port of syll.rs (apply_supras, apply_syll_mods) and of match_stress / match_seg_length: matching equals the "
+             "manual's length and stress tables for every run length and stress state; on a maximal run of any length L>=1 at any position of any "
+             "syllable, apply_supras replaces the run by one of the table's length, leaves every other segment untouched, reports the length change, "
+             "sets stress/tone by the table, and errors exactly on [-long,+overlong] and [-stress,+sec.stress]; setting then matches; frame laws. "
+             "The property itself (36 states x 405 modifier combinations x match/set x element kinds x 3 positions) is evaluated exhaustively on the "
+             "implementation through the rule pipeline against the table model.",
+        note="Trusted: Lean kernel, standard axioms. The theorems are about the syllable-level functions; where the interpreter applies them is the scan "
+             "loop's business, whose defect D5 (a long target run is re-entered after a length-setting substitution) is a known finding "
+             "(known_findings.json), reported as KNOWN-FINDING, not proved away. Alphas on suprasegmentals are modelled but only binary modifiers are "
+             "covered by the theorems.",
+        technique="Lean 4 theorems over ported syll.rs + exhaustive table-model evaluation on impl",
+        design="§4 C05"),
     "C10": dict(
         text="Theorems over an abstract-interpreter model of the runner (lib.rs:185-337), for rule lists and word lists of any length: "
              "applying G1++G2 is applying G1 then G2 (errors included), a result depends only on the flattened rule sequence (regrouping and "
